@@ -116,7 +116,19 @@ def track_no_panic(ctx, q, S, e, okpaths):
                 st, m = q.check(r2.pc, "track-panic")
                 ctx.ob("tracker/track/%s/no-panic" % e["opname"], st == "unsat" or (False if st == "sat" else None), str(r2.info))
                 if st == "sat":
-                    ctx.violation("tracker/panic/%s" % e["opname"], "TypeTracker::track panics on a delivered Op%s: %s" % (e["opname"], r2.info), None)
+                    # native confirmation: the declaration with the operand words of the witness, parsed (which tracks it)
+                    le = c03.le
+                    ws = [m.eval(z3.Select(S.MEM, z3.BitVecVal(20 + 4 * i, 64)), model_completion=True).as_long() for i in range(6)]
+                    n_ = min(max(ws[0] >> 16, 1), 6)
+                    hexb = c03.HEADER + "".join(le(x) for x in ws[:n_])
+                    rp_ = Replay()
+                    real = rp_.ask("parse_script %s C" % hexb)
+                    rp_.close()
+                    if "panic" in real:
+                        ctx.violation("tracker/panic/%s" % e["opname"], "TypeTracker::track panics on a delivered Op%s: %s (%s)" % (e["opname"], real["panic"], real.get("at")),
+                                      {"cmd": "parse_script %s C" % hexb, "real": real})
+                    else:
+                        ctx.inconclusive.append(("tracker/track/%s/no-panic" % e["opname"], "model-only panic edge (%s); the compiled crate: %s" % (r2.info, str(real)[:160])))
             else:
                 ctx.ob("tracker/track/%s/no-panic" % e["opname"], True)
 
@@ -211,7 +223,13 @@ def assemble_index(ctx, q, S):
                     st, m = q.check(r.pc, "assemble-panic")
                     ctx.ob(tag + "/no-panic", st == "unsat" or (False if st == "sat" else None), str(r.info))
                     if st == "sat":
-                        ctx.violation("assemble/panic", "Instruction::assemble_into panics: %s" % (r.info,), None)
+                        rp_ = Replay()
+                        real = rp_.ask("load_disassemble %s" % (c03.HEADER + c03.le(1 << 16) + c03.le(2 << 16 | 19) + c03.le(1)))
+                        rp_.close()
+                        if "panic" in real:
+                            ctx.violation("assemble/panic", "Instruction::assemble_into panics: %s" % real["panic"], {"cmd": "load_disassemble", "real": real})
+                        else:
+                            ctx.inconclusive.append((tag + "/no-panic", "model-only panic edge: %s" % (r.info,)))
                     continue
                 out = r.mem[("h", "result")]
                 n = len(out.items) - prelen
@@ -221,7 +239,16 @@ def assemble_index(ctx, q, S):
                 ok = st == "unsat" and n == 1 + 1 + nops
                 ctx.ob(tag + "/first-word=opcode|wc<<16", True if ok else (False if st == "sat" else None))
                 if st == "sat":
-                    ctx.violation("assemble/first-word", "the first word is not opcode | (word count << 16)", None)
+                    hexb = c03.HEADER + c03.le(1 << 16) + c03.le(2 << 16 | 19) + c03.le(1) + c03.le(4 << 16 | 21) + c03.le(2) + c03.le(32) + c03.le(0)
+                    rp_ = Replay()
+                    real = rp_.ask("load_disassemble %s" % hexb)
+                    rp_.close()
+                    ws_ = real.get("words", [])
+                    if "panic" in real or (real.get("loaded") and ws_[5:] != [1 << 16, 2 << 16 | 19, 1, 4 << 16 | 21, 2, 32, 0]):
+                        ctx.violation("assemble/first-word", "the first word of an assembled instruction is not opcode | (word count << 16): OpNop, OpTypeVoid %%1, "
+                                      "OpTypeInt %%2 32 0 are assembled as %s" % ws_[5:], {"cmd": "load_disassemble %s" % hexb, "real": real})
+                    else:
+                        ctx.inconclusive.append((tag + "/first-word", "model-only: the compiled crate assembles %s" % ws_[5:]))
 
 
 def disas_constant(ctx, q, S, rp):
